@@ -72,6 +72,12 @@ def render_field(f, ind, sp, path):
         if s.get("nopaircomma"):
             lines = [x.rstrip(",") for x in lines]
         return "%smatch %s as %s {\n%s\n%s}," % (ind, f["key"], f["name"], "\n".join(lines), ind)
+    if k in ("len", "ck") and f.get("pad") == "notype":
+        # no type written: the compiler takes it from the MetaData entry named like the field
+        attr = "@lengthOf(%s)" % f["tgt"] if k == "len" else '@calculatedFrom("%s")' % f["alg"]
+        if s.get("prefixattr"):
+            return "%s%s %s%s%s" % (ind, attr, f["name"], doc, sep)
+        return "%s%s %s%s%s" % (ind, f["name"], attr, doc, sep)
     if k == "len":
         if s.get("prefixattr"):
             return "%s@lengthOf(%s) %s %s%s%s" % (ind, f["tgt"], _ty(f["ty"], s), f["name"], doc, sep)
@@ -107,7 +113,7 @@ def render(prog, spelling=None):
 def render_lines(prog, spelling=None, lead=0):
     """-> (text, sitemap) ; sitemap: site tuple -> 1-based line of the declaration's first token.
     Sites: ("xopt", k) ("meta", j) ("pkt", j) ("field", j, i) ("pair", j, i, q)  (1-based, as Validate.tla)."""
-    sp = spelling or {}
+    sp = spelling or prog.get("spelling") or {}      # a program may carry the spelling it is to be written in
     o = prog["opts"]
     lines = ["// leading comment %d" % i for i in range(lead)]
     sites = {}
